@@ -38,6 +38,8 @@ def run(C, R):
         CG = C.cg(cfg)
         roles = C.roles(cfg)
         R.configs.append(cfg)
+        from common import futures_start_initial as _fsi
+        R.floor('C15.R0f future-construction-paths[%s]' % cfg, _fsi(C, R, cfg, ['timer::timer::TimerState'], 'C15.R0f'), 1)
         from common import constructor_state
         constructor_state(R, C.engine(cfg), C.facts(cfg), STATE, {'waiters': 'empty-queue', 'clock': ('ref', (('P', 'clock'),))}, 'C15.R0')
         from common import wrapper_discipline
